@@ -65,7 +65,9 @@ def srcRow (f : RFrame) (m : Option Dir) (t : Int) : Option Nat :=
 
 /-- the cell of column `col` of `f` that label `t` receives -/
 def lookF (f : RFrame) (m : Option Dir) (col : RCol) (t : Int) : Option Rat :=
-  (srcRow f m t).bind fun i => (col[i]?).join
+  -- repaired `_df_reindex` (C03-A2): with a fill method a frame is joined as-of COLUMN BY COLUMN, every column on its own
+  -- non-NaN observations, i.e. the source row is that of the one-column frame of `col`
+  (srcRow { idx := f.idx, cols := [("", col)] } m t).bind fun i => (col[i]?).join
 
 def reindexF (f : RFrame) (ix : List Int) (m : Option Dir) : RFrame :=
   { idx := ix, cols := f.cols.map fun c => (c.1, ix.map (lookF f m c.2)) }
@@ -191,6 +193,29 @@ def aggregateF (g : Agg) (how : How) (m : Option Dir) (ch : ColHow) (fs : List R
     some { idx := ix,
            cols := cols.map fun c => (c, (List.range ix.length).map fun k =>
                      g.at (gs.map fun f => ((colOf f c).bind fun col => col[k]?).join)) }
+  | _, _ => Option.none
+
+/-- the frames among the operands of an aggregate -/
+def framesOfX (xs : List FOperand) : List RFrame :=
+  xs.filterMap fun x => match x with | .df f => some f | _ => Option.none
+
+/-- `df_sum / df_mean / df_count` over frames with several columns each AND scalars (`df_sum([f, 5.0, g])`): index and
+columns come from the frames alone, a scalar counts in every cell (`sum` broadcasts it, `~_mask(5.0)` is the bool `True`
+added to every count), a NaN scalar in none.  Series operands are not covered here (known finding C08-A1). -/
+def aggregateFS (g : Agg) (how : How) (m : Option Dir) (ch : ColHow) (xs : List FOperand) : Option RFrame :=
+  let fs := framesOfX xs
+  match joinIndex how (fs.map (·.idx)), fs.map (·.names) with
+  | some ix, c :: cs =>
+    let cols := colsJoin ch c cs
+    let ys := xs.map fun x => match x with
+      | .df f => FOperand.df (recolumnF cols (reindexF f ix m))
+      | y => y
+    some { idx := ix,
+           cols := cols.map fun c => (c, (List.range ix.length).map fun k =>
+                     g.at (ys.map fun y => match y with
+                       | .df f => ((colOf f c).bind fun col => col[k]?).join
+                       | .num q => q
+                       | .ts _ => Option.none)) }
   | _, _ => Option.none
 
 end Pyg.Ops
